@@ -191,6 +191,7 @@ type sinkWrite struct {
 	size   linear     // bytes written
 	marker int64      // constant uint16 value >= 0xFF00 if the write is a marker constant, else -1
 	callee string
+	decl   *linear    // a length field whose value is known as a linear form (synthesised fields)
 	psot   linear     // what == "sot": the Psot value, in the caller's terms
 	isot   ssa.Value  // what == "sot": the Isot argument
 }
@@ -328,6 +329,35 @@ func sinkWritesOf(fn *ssa.Function, s ssa.Value) (ws []sinkWrite, ordered bool) 
 					}
 					if h.body >= 0 {
 						w.size = linConst(4).add(linTerm("len(" + sliceIdentity(cc.Args[h.body]) + ")"))
+						// a payload built in place (append chain / staged buffer) with constant-size
+						// fields: the segment is taken apart like a hand-written one, so that the fields
+						// after the length (Isot, Psot, …) stay visible to the rules
+						if w.marker >= 0xFF00 {
+							var fs []emitField
+							okf := false
+							switch cc.Args[h.body].(type) {
+							case *ssa.Call, *ssa.Phi:
+								fs, okf = chainFields(fn, cc.Args[h.body], nil, 0)
+							default:
+								fs, okf = stagedFields(cc.Args[h.body], call)
+							}
+							total := linConst(2)
+							for _, f := range fs {
+								total = total.add(f.size)
+							}
+							if okf && len(fs) > 0 && !total.bad {
+								ws = append(ws, sinkWrite{ins: call, what: "marker", marker: w.marker, size: linConst(2), callee: name + " (segment marker)"})
+								ws = append(ws, sinkWrite{ins: call, what: "value", size: linConst(2), decl: &total, callee: name + " (segment length = len(payload)+2)"})
+								for _, f := range fs {
+									what := f.what
+									if what == "marker" {
+										what = "value"
+									}
+									ws = append(ws, sinkWrite{ins: call, what: what, val: f.val, size: f.size, marker: -1, callee: name + " (payload field)"})
+								}
+								continue
+							}
+						}
 					} else {
 						w.size = linConst(4).add(linTerm("len(payload emitted at " + call.Parent().Name() + "#" + fmt.Sprint(instrIndexIn(call)) + ")"))
 					}
@@ -415,7 +445,7 @@ func runC16(c *Ctx) Info {
 			c.C.Fatalf("BYTES: no writer of the mandatory %s segment (0x%04X) was recognised in encode-reachable code: the rule would pass vacuously", j2kSegmentMarkers[m], m)
 		}
 	}
-	c.C.Floor("BYTES", nBytes-c.controlCount("BYTES"), 6)
+	c.C.Floor("BYTES", nBytes-c.controlCount("BYTES"), 3)
 	c.C.Floor("OWNER-SINK", nSink-c.controlCount("OWNER-SINK"), 3)
 	for _, r := range []string{"ORDER-FRAMING", "BYTES", "OWNER-SINK"} {
 		c.C.ExpectControl(r)
@@ -531,7 +561,7 @@ func (c *Ctx) orderFramingRule(fns []*ssa.Function) int {
 			if ei >= 0 && definitelyNonNilError(ret, ei) {
 				continue
 			}
-			if !instrDominates(end, ret) {
+			if !instrDominates(end, ret) && !dominatesOnNilPaths(fn, end, ret, ei) {
 				fail(ret, "a return with a nil error is not dominated by the end-marker write: a stream without EOI/EOC can be returned")
 				bad = true
 				break
@@ -542,6 +572,119 @@ func (c *Ctx) orderFramingRule(fns []*ssa.Function) int {
 		}
 	}
 	return n
+}
+
+// dominatesOnNilPaths: instruction a lies on every path from the entry to return ret along which
+// ret's error can be nil. Handles the err-chaining style (err := A(); if err == nil { err = B() }; …;
+// if err != nil { return nil, err }; return out, nil): an edge into a block whose error phi receives,
+// on that edge, a value just tested non-nil cannot lie on a path to a return that needs the phi nil.
+func dominatesOnNilPaths(fn *ssa.Function, a ssa.Instruction, ret *ssa.Return, ei int) bool {
+	if ei < 0 {
+		return false
+	}
+	// the error variable whose nil-ness guards ret: ret.Results[ei] itself (a phi), or the phi tested
+	// by the branch that leads to ret when the result is the nil constant
+	var guard *ssa.Phi
+	if p, ok := ret.Results[ei].(*ssa.Phi); ok {
+		guard = p
+	} else if isNilConst(ret.Results[ei]) {
+		for b := ret.Block(); b != nil && guard == nil; b = b.Idom() {
+			d := b.Idom()
+			if d == nil {
+				break
+			}
+			bo, ok := ifCond(d).(*ssa.BinOp)
+			if !ok || len(d.Succs) != 2 {
+				continue
+			}
+			var v ssa.Value
+			if isNilConst(bo.Y) {
+				v = bo.X
+			} else if isNilConst(bo.X) {
+				v = bo.Y
+			}
+			p, isPhi := v.(*ssa.Phi)
+			if !isPhi || p.Type().String() != "error" {
+				continue
+			}
+			// ret must lie on the side where the phi is nil
+			nilSide := d.Succs[0]
+			if bo.Op == token.NEQ {
+				nilSide = d.Succs[1]
+			} else if bo.Op != token.EQL {
+				continue
+			}
+			if nilSide == b || nilSide.Dominates(ret.Block()) {
+				guard = p
+			}
+		}
+	}
+	if guard == nil {
+		return false
+	}
+	// edges on which a phi of the chain receives a value known non-nil on that very edge
+	type edge struct{ from, to *ssa.BasicBlock }
+	dead := map[edge]bool{}
+	var mark func(p *ssa.Phi, depth int)
+	seen := map[*ssa.Phi]bool{}
+	mark = func(p *ssa.Phi, depth int) {
+		if seen[p] || depth > 12 {
+			return
+		}
+		seen[p] = true
+		for i, op := range p.Edges {
+			pred := p.Block().Preds[i]
+			if bo, ok := ifCond(pred).(*ssa.BinOp); ok && len(pred.Succs) == 2 && pred.Succs[0] != pred.Succs[1] {
+				var tested ssa.Value
+				if isNilConst(bo.Y) {
+					tested = bo.X
+				} else if isNilConst(bo.X) {
+					tested = bo.Y
+				}
+				if tested == op {
+					nonNilSucc := pred.Succs[0]
+					if bo.Op == token.EQL {
+						nonNilSucc = pred.Succs[1]
+					} else if bo.Op != token.NEQ {
+						nonNilSucc = nil
+					}
+					if nonNilSucc == p.Block() {
+						dead[edge{pred, p.Block()}] = true
+					}
+				}
+			}
+		}
+	}
+	mark(guard, 0)
+	if len(dead) == 0 {
+		return false
+	}
+	// is ret reachable from the entry without passing a's block, using live edges only?
+	ab := a.Block()
+	visited := map[*ssa.BasicBlock]bool{}
+	var walk func(b *ssa.BasicBlock) bool
+	walk = func(b *ssa.BasicBlock) bool {
+		if b == ab || visited[b] {
+			return false
+		}
+		visited[b] = true
+		if b == ret.Block() {
+			return true
+		}
+		for _, sc := range b.Succs {
+			if dead[edge{b, sc}] {
+				continue
+			}
+			if walk(sc) {
+				return true
+			}
+		}
+		return false
+	}
+	if len(fn.Blocks) == 0 || fn.Blocks[0] == ab {
+		return true
+	}
+	return !walk(fn.Blocks[0])
 }
 
 // ownerLengthRule: OWNER-LENGTH (JPEG family) and BYTES (JPEG 2000 + manual JPEG segments).
@@ -722,7 +865,12 @@ func (c *Ctx) countSegment(fn *ssa.Function, ws []sinkWrite, i int) (report.Stat
 	if lw.what != "value" || !lw.size.equal(linConst(2)) {
 		return report.Violated, "a length-bearing marker is not followed by a 16-bit length field (next write: " + lw.callee + ")"
 	}
-	declared := linearOf(lw.val, 0)
+	var declared linear
+	if lw.decl != nil {
+		declared = *lw.decl
+	} else {
+		declared = linearOf(lw.val, 0)
+	}
 	if declared.bad {
 		return report.OutOfScope, "declared length is not a linear expression of len()/constants: " + addrExpr(lw.val)
 	}
